@@ -200,6 +200,16 @@ def outs_before_cb(timeline):
     return res
 
 
+def loop_responds(seconds=20.0):
+    """does the client's event loop (the one the Dask-backed pipeline runs on) still take
+    callbacks?  A loop that does not run a trivial callback for this long is stuck in a blocking
+    call; nothing that needs it (client().processing() included) would ever return."""
+    import threading
+    ev = threading.Event()
+    client().loop.add_callback(ev.set)
+    return ev.wait(seconds)
+
+
 def settle(out, expect_n, rcs, expect_counts, timeout=30.0):
     """wait for the results (generous bound), then briefly for the counters to settle"""
     t0 = time.time()
@@ -244,6 +254,12 @@ def execute(case):
     th = threading.Thread(target=worker, daemon=True)
     th.start()
     th.join(45)
+    if th.is_alive() and not loop_responds():
+        return Result([("%s:dask-run-blocks-the-event-loop" % ID, "ops %s inputs %s: emit has not "
+                        "returned after 45 s and the event loop of the pipeline has not run a "
+                        "callback for a further 20 s (a blocking call on the loop thread); the "
+                        "local pipeline completes" % (case["ops"], case["inputs"]))],
+                      nontrivial=True, abort=True)
     if th.is_alive():
         # a blocking emit that never returns: sound only if the cluster has nothing to do
         idle = 0
@@ -275,6 +291,12 @@ def execute(case):
             # left to run; otherwise the run is inconclusive (never a violation)
             idle = 0
             t0 = time.time()
+            if not loop_responds():
+                return Result([("%s:dask-run-blocks-the-event-loop" % ID, "ops %s inputs %s: dask "
+                                "delivered %s of %s and the event loop of the pipeline has not run "
+                                "a callback for 20 s (a blocking call on the loop thread)" % (
+                                    case["ops"], case["inputs"], list(dout), expect))],
+                              nontrivial=True, abort=True)
             while time.time() - t0 < 60 and len(dout) < len(expect):
                 busy = any(client().processing().values())
                 idle = 0 if busy else idle + 1
